@@ -330,11 +330,15 @@ example : ∃ (_ : Scalar ℝ) (_ : LawfulScalar ℝ) (_ : LawfulHypotSq ℝ) (l
   exact ⟨i1, i2, i3, l, L, h1.len, h3⟩
 
 /-- **End of a line.** If the rest of the segment fits into the current entry, the step emits the segment end `l.p1` if the
-    entry is on (nothing otherwise), shortens the entry by `seg_remaining` and fetches input.  (No `hypot` law needed.) -/
+    entry is on (nothing otherwise), shortens the entry by `seg_remaining` and fetches input.  "Emits": outside `ToStash` the
+    element is returned; in `ToStash` (first dash of the sub-path, withheld) it is pushed to the stash at once, BEFORE the
+    input is fetched, and nothing is returned – so that a `ClosePath` which `get_input` appends to the stash comes after it
+    (crate repair 7127469; before, `next` pushed the returned element after `get_input` had run).  (No `hypot` law needed.) -/
 theorem dash_step_line_end (s : DashIt K) (l : Line K) (hseg : s.current_seg = .Line l)
     (hst : (s.state == .ToStash && s.stash.isEmpty) = false) (hnlt : ¬ s.dash_remaining < s.seg_remaining) :
-    s.step = some (if s.is_active then some (.LineTo l.p1) else none,
-      ({ s with dash_remaining := s.dash_remaining - s.seg_remaining } : DashIt K).get_input) :=
+    s.step = some (if s.is_active && !(s.state == .ToStash) then some (.LineTo l.p1) else none,
+      ({ (if s.is_active && s.state == .ToStash then { s with stash := s.stash.push (.LineTo l.p1) } else s) with
+          dash_remaining := s.dash_remaining - s.seg_remaining } : DashIt K).get_input) :=
   step_line_end s l hseg hst hnlt
 example : ({ exWorking with dash_remaining := 30 } : DashIt Rat).current_seg = .Line ⟨⟨0, 0⟩, ⟨21, 0⟩⟩ ∧
     ¬ ({ exWorking with dash_remaining := 30 } : DashIt Rat).dash_remaining
@@ -343,6 +347,12 @@ example : ({ exWorking with dash_remaining := 30 } : DashIt Rat).current_seg = .
   · rfl
   · show ¬ ((30 : Rat) < 20)
     decide +kernel
+-- the same in `ToStash` (first dash under way, `MoveTo (0,0)` stashed): nothing is returned, `LineTo (21,0)` is on the stash when
+-- `get_input` runs; and when `get_input` then finds the `ClosePath` (sub-path ends at its start), `ClosePath` comes after it
+example : ({ exToStash with dash_remaining := 30 } : DashIt Rat).step.map (fun r => (r.1, r.2.stash, r.2.state, r.2.dash_remaining))
+    = some (none, #[.MoveTo ⟨0, 0⟩, .LineTo ⟨21, 0⟩], .ToStash, 9) ∧
+  ({ exToStash with dash_remaining := 30, inner := [.ClosePath], last_pt := ⟨0, 0⟩, current_seg := .Line ⟨⟨5, 0⟩, ⟨0, 0⟩⟩, seg_remaining := 5 } : DashIt Rat).step.map (fun r => (r.1, r.2.stash, r.2.state))
+    = some (none, #[.MoveTo ⟨0, 0⟩, .LineTo ⟨0, 0⟩, .ClosePath], .FromStash) := by decide +kernel
 
 /-! ### the specification by arc length (`DashSpec`, `Proofs/Lemmas/C13Arith.lean`)
     `Ph = (ix, rem, act)` is a position in the pattern, `walk n pat fuel ph ℓ` advances it by the length `ℓ` and returns the
@@ -658,6 +668,10 @@ example : (dash [.MoveTo ⟨0, 0⟩, .LineTo ⟨4, 0⟩, .MoveTo ⟨0, 1⟩, .Li
 example : (dash [.MoveTo ⟨0, 0⟩, .LineTo ⟨4, 0⟩, .LineTo ⟨4, 4⟩, .LineTo ⟨0, 4⟩, .ClosePath] (0 : Rat) #[3, 2]).okList =
     some [.MoveTo ⟨4, 1⟩, .LineTo ⟨4, 4⟩, .LineTo ⟨4, 4⟩, .MoveTo ⟨2, 4⟩, .LineTo ⟨0, 4⟩, .LineTo ⟨0, 3⟩,
           .MoveTo ⟨0, 1⟩, .LineTo ⟨0, 0⟩, .LineTo ⟨3, 0⟩] := by decide +kernel
+
+/-- a closed square that lies inside the first dash (perimeter 16 < 20) is returned whole, in order, `ClosePath` last -/
+example : (dash [.MoveTo ⟨0, 0⟩, .LineTo ⟨4, 0⟩, .LineTo ⟨4, 4⟩, .LineTo ⟨0, 4⟩, .LineTo ⟨0, 0⟩, .ClosePath] (0 : Rat) #[20, 2]).okList =
+    some [.MoveTo ⟨0, 0⟩, .LineTo ⟨4, 0⟩, .LineTo ⟨4, 4⟩, .LineTo ⟨0, 4⟩, .LineTo ⟨0, 0⟩, .ClosePath] := by decide +kernel
 
 /-- a 3-4-5 segment (length 5, `hypot` exact), pattern [5/2, 5/2]: the dash ends at the midpoint -/
 example : (dash [.MoveTo ⟨0, 0⟩, .LineTo ⟨3, 4⟩] (0 : Rat) #[5 / 2, 5 / 2]).okList =
